@@ -10,6 +10,7 @@ import (
 	"encoding/hex"
 	"fmt"
 	"net"
+	"os"
 	"strconv"
 	"strings"
 	"sync"
@@ -505,10 +506,7 @@ func replyClass(m *dns.Msg) string {
 	if m == nil {
 		return "undecodable"
 	}
-	rc := m.Rcode
-	if opt := m.IsEdns0(); opt != nil {
-		rc |= opt.ExtendedRcode() << 4 & 0xff0
-	}
+	rc := m.Rcode // the library folds the OPT's extended rcode in on unpack
 	if rc == dns.RcodeBadVers {
 		return "badvers"
 	}
@@ -585,6 +583,9 @@ func (e *env) judgeReply(idx int, op *Op, out *outcome) {
 			CookieSecret: "c19-secret", ClientIP: ip.String(), ECSEnabled: e.pol.Enabled})
 		for _, b := range br {
 			if !b.Info {
+				if os.Getenv("C19_DEBUG") != "" {
+					fmt.Fprintf(os.Stderr, "breach: %s\n", b)
+				}
 				r.Count("contract_breaches", 1)
 				r.DistinctIn("contract_breach_rules", b.Rule)
 			}
@@ -659,6 +660,10 @@ func (e *env) judgeUpstream(idx int, op *Op, out *outcome) {
 		if len(s.ECS) == 0 {
 			if len(exp) > 0 && !s.Internal {
 				r.Count("upstream_ecs_absent_though_permitted", 1)
+				r.DistinctIn("absent_though_permitted", fmt.Sprintf("%s/%v", op.Entry, exp))
+				if os.Getenv("C19_DEBUG") != "" {
+					fmt.Fprintf(os.Stderr, "absent: %s %s opts=%v exp=%v\n", op.Entry, op.Client, op.Q.Opts, exp)
+				}
 			}
 			continue
 		}
